@@ -272,14 +272,25 @@ Definition names_of (reg : list schema) (dom : string) : list string :=
 Definition cover_bound : Z := 23%Z.
 Definition covered (c : cls) : bool := negb (String.eqb (c_domain c) "") || Z.leb (c_version c) cover_bound.
 
-(* one (class, operator) pair; ms = all methods visible on the class, nearest definition first.
-   A schema marked deprecated at the class's version is not an operator of that opset version: nothing
-   is required there (reported separately by the harness). *)
-Definition pair_ok (reg : list schema) (ms : list method) (c : cls) (op : string) : bool :=
+(* Exemptions.  `ex s = true` claims nothing for the operator whose schema at the class's version is s.
+   The three instances in use:
+     s_deprecated            every schema ONNX marks deprecated (the statement of the first rounds);
+     exempt_in l             only the deprecated schemas of the (domain, operator) pairs listed in l -- the list
+                             is regenerated on every check (Gen/OpsetMethods.exempt_ops: deprecated schemas for
+                             which the class of the deprecation version defines no method of its own) and every
+                             entry with an inherited older method is reported by the harness under its own key;
+     fun _ => false          no exemption: the repaired generator (a method is generated for a deprecated
+                             schema like for any other). *)
+Definition exempt_in (l : list (string * string)) (s : schema) : bool :=
+  s_deprecated s && existsb (fun e => String.eqb (fst e) (s_domain s) && String.eqb (snd e) (s_name s)) l.
+Definition no_exemption (s : schema) : bool := false.
+
+(* one (class, operator) pair; ms = all methods visible on the class, nearest definition first. *)
+Definition pair_ok (ex : schema -> bool) (reg : list schema) (ms : list method) (c : cls) (op : string) : bool :=
   match dyn_getitem reg c op with
   | None => match lookup_in ms op with None => true | Some _ => false end
   | Some s =>
-    if s_deprecated s then true else
+    if ex s then true else
     match lookup_in ms op with
     | None => negb (covered c)
     | Some m =>
@@ -287,11 +298,11 @@ Definition pair_ok (reg : list schema) (ms : list method) (c : cls) (op : string
     end
   end.
 
-Definition pair_diag (reg : list schema) (ms : list method) (c : cls) (op : string) : list string :=
+Definition pair_diag (ex : schema -> bool) (reg : list schema) (ms : list method) (c : cls) (op : string) : list string :=
   match dyn_getitem reg c op with
   | None => match lookup_in ms op with None => [] | Some _ => ["no-such-operator"] end
   | Some s =>
-    if s_deprecated s then [] else
+    if ex s then [] else
     match lookup_in ms op with
     | None => if covered c then ["missing-method"] else []
     | Some m =>
@@ -304,22 +315,22 @@ Definition pair_diag (reg : list schema) (ms : list method) (c : cls) (op : stri
 Definition class_ops (reg : list schema) (ms : list method) (c : cls) : list string :=
   nodup_names [] (map s_name (filter (fun s => String.eqb (s_domain s) (c_domain c)) reg) ++ map m_name ms).
 
-Definition class_ok (reg : list schema) (cs : list cls) (c : cls) : bool :=
+Definition class_ok (ex : schema -> bool) (reg : list schema) (cs : list cls) (c : cls) : bool :=
   match all_methods cs c with
   | None => false
-  | Some ms => forallb (pair_ok reg ms c) (class_ops reg ms c)
+  | Some ms => forallb (pair_ok ex reg ms c) (class_ops reg ms c)
   end.
 
-Definition registry_ok (reg : list schema) (cs : list cls) : bool :=
-  nodupb (map c_name cs) && forallb (class_ok reg cs) cs.
+Definition registry_ok (ex : schema -> bool) (reg : list schema) (cs : list cls) : bool :=
+  nodupb (map c_name cs) && forallb (class_ok ex reg cs) cs.
 
 (* failure report: (class, operator, what differs) *)
-Definition registry_failures (reg : list schema) (cs : list cls) : list (string * string * list string) :=
+Definition registry_failures (ex : schema -> bool) (reg : list schema) (cs : list cls) : list (string * string * list string) :=
   List.concat (map (fun c =>
     match all_methods cs c with
     | None => [(c_name c, "", ["broken-base-chain"])]
     | Some ms =>
-      List.concat (map (fun op => match pair_diag reg ms c op with [] => [] | d => [(c_name c, op, d)] end) (class_ops reg ms c))
+      List.concat (map (fun op => match pair_diag ex reg ms c op with [] => [] | d => [(c_name c, op, d)] end) (class_ops reg ms c))
     end) cs).
 
 (* (class, operator, version the inherited method names, version of the deprecated schema):
